@@ -8,6 +8,8 @@ CONSTANTS
   OtherPeer = FALSE
   ClearOnAnyDisconnect = FALSE
   SeqCallers = FALSE
+  PeerMayClose = FALSE
+  LeakIfGoneAtTimeout = FALSE
   RemoveOnTimeout = TRUE
 CHECK_DEADLOCK FALSE
 INVARIANT OwnReplyOnly
